@@ -382,7 +382,7 @@ pub fn own_flags_take() -> String {
     OWN_FLAGS.with(|f| std::mem::take(&mut *f.borrow_mut()))
 }
 
-fn own_flag(what: &str) {
+pub fn own_flag(what: &str) {
     OWN_FLAGS.with(|f| {
         let mut f = f.borrow_mut();
         if !f.contains(what) {
@@ -1098,11 +1098,20 @@ impl<K: KeyT, V: ValT> MapRunner<K, V> {
                 let out = &mut self.stash;
                 {
                     let mut e = m.extract_if(pred);
+                    let mut ended = false;
                     for _ in 0..n(0) {
                         match e.next() {
                             Some(x) => out.push(x),
-                            None => break,
+                            None => {
+                                ended = true;
+                                break;
+                            }
                         }
+                    }
+                    // polled again after its end it stays at the end: no element, no further predicate call
+                    // (a predicate call would show in the callback counters; an element is flagged here)
+                    if ended && (e.next().is_some() || e.next().is_some()) {
+                        crate::exec::own_flag("ORACLE-REF(extract_if_yielded_an_element_after_returning_None)");
                     }
                 }
                 quiet();
